@@ -1,11 +1,23 @@
-import XlVerif.Model.Parser
+import XlVerif.Model.C02
 /-! Driver for C02 (also used by C01).
   `C02 tok <text>`                 → `impl=<tokens>`  tokens = `ttype/tsubtype/<value>` joined by `|`
-  `C02 parse <names> <text>`       → `impl=<tree>`    names = `<name>~<target>` joined by `|` (or empty)
-  texts are decimal code points joined by `.`; values are `s<codepoints>` or `f<num>/<den>`
+  `C02 parse <names> <text>`       → `impl=<ast>`     names = `<name>~<target>` joined by `|` (or empty)
+  `C02 shape <text>`               → `impl=<tree | X:…>`     (raw text, malformed stream)
+  `C02 expr <seed> <expr>`         → `text=<render>  tree=<treeOf>  impl=<tree of Model parse | X:…>  wf=0|1`
+  texts are decimal code points joined by `.`; values are `s<codepoints>` or `f<num>/<den>`.
+
+  Wire form of an abstract expression (prefix notation, items separated by one blank):
+    `n:<ip>:<fp|->:<exp|->:<pct>`   numeric literal; digits as written, exp = `+dd`/`-dd`, pct = 0|1
+    `s:<codepoints>`                 string literal        `T` `F`   booleans       `e:<CODE>`  error literal
+    `r:<n|p|q>:<sheet codepoints>:<cell>[:<cell>]`         reference; cell = `[$]LETTERS[$]DIGITS`
+    `u` X     unary minus     `b:<op>` L R   binary (pow mul div add sub cat eq ne lt gt le ge)
+    `p` X     parentheses     `c:<0|1>:<name codepoints>:<n>` A1 … An    call (`1`: leading `@`)
+  Blank oracle from `<seed>`: 0 = no blanks, 1 = one space in every slot, 2 = one newline in every slot,
+  otherwise a pseudo-random run (possibly empty) per slot, a function of seed, path and slot.
 -/
 namespace XlVerif.Drv.C02
 open XlVerif XlVerif.Model.Tokenizer XlVerif.Model.Parser
+open XlVerif.Spec.C02
 
 def ttW : TType → String
   | .noop => "noop" | .operand => "operand" | .function => "function" | .subexpr => "subexpression"
@@ -38,12 +50,117 @@ partial def astW : Ast → String
   | .binop t l r => "(b " ++ tokW t ++ " " ++ astW l ++ " " ++ astW r ++ ")"
   | .func t args => "(f " ++ tokW t ++ (args.foldl (fun acc a => acc ++ " " ++ astW a) "") ++ ")"
 
+/-- canonical text of a `Tree` (the Python tree walk prints the same) -/
+partial def treeW : Tree → String
+  | .num v => "(n " ++ textWire v ++ ")"
+  | .pct q => "(q " ++ ratWire q ++ ")"
+  | .str v => "(s " ++ textWire v ++ ")"
+  | .bool b => if b then "(B 1)" else "(B 0)"
+  | .err v => "(e " ++ textWire v ++ ")"
+  | .ref v => "(r " ++ textWire v ++ ")"
+  | .unop v x => "(u " ++ textWire v ++ " " ++ treeW x ++ ")"
+  | .binop v l r => "(b " ++ textWire v ++ " " ++ treeW l ++ " " ++ treeW r ++ ")"
+  | .call f args => "(c " ++ textWire f ++ (args.foldl (fun acc a => acc ++ " " ++ treeW a) "") ++ ")"
+  | .unknown => "?"
+
 def namesOf (w : String) : Option (List (List Char × List Char)) :=
   if w.isEmpty then some [] else
     (w.splitOn "|").mapM fun p =>
       match p.splitOn "~" with
       | [a, b] => do let x ← parseText? a; let y ← parseText? b; pure (x, y)
       | _ => none
+
+/-! ### reading an abstract expression -/
+
+def digitsOf (s : String) : Option (List Nat) :=
+  s.toList.mapM fun c => if '0' ≤ c ∧ c ≤ '9' then some (c.toNat - 48) else none
+
+def binOpOf : String → Option BinOp
+  | "pow" => some .pow | "mul" => some .mul | "div" => some .div | "add" => some .add
+  | "sub" => some .sub | "cat" => some .cat | "eq" => some .eq | "ne" => some .ne
+  | "lt" => some .lt | "gt" => some .gt | "le" => some .le | "ge" => some .ge | _ => none
+
+def cellOf (s : String) : Option Cell :=
+  let cs := s.toList
+  let (ca, cs) := match cs with | '$' :: r => (true, r) | r => (false, r)
+  let col := cs.takeWhile fun c => 'A' ≤ c ∧ c ≤ 'Z' ∨ 'a' ≤ c ∧ c ≤ 'z'
+  let cs := cs.dropWhile fun c => 'A' ≤ c ∧ c ≤ 'Z' ∨ 'a' ≤ c ∧ c ≤ 'z'
+  let (ra, cs) := match cs with | '$' :: r => (true, r) | r => (false, r)
+  (digitsOf (String.ofList cs)).map fun row => { colAbs := ca, col := col, rowAbs := ra, row := row }
+
+def atomOf (w : String) : Option Expr :=
+  match w.splitOn ":" with
+  | ["n", ip, fp, ex, pct] => do
+    let ip ← digitsOf ip
+    let fp ← if fp = "-" then pure none else (digitsOf fp).map some
+    let ex ← if ex = "-" then pure none else
+      (match ex.toList with
+       | '+' :: ds => (digitsOf (String.ofList ds)).map fun d => some (false, d)
+       | '-' :: ds => (digitsOf (String.ofList ds)).map fun d => some (true, d)
+       | _ => none)
+    pure (.num { ip := ip, fp := fp, exp := ex } (pct = "1"))
+  | ["s", t] => (parseText? t).map .str
+  | ["T"] => some (.bool true)
+  | ["F"] => some (.bool false)
+  | ["e", c] => (Code.ofWire? c).map .err
+  | "r" :: k :: sh :: c1 :: rest => do
+    let name ← parseText? sh
+    let sheet ← (match k with
+      | "n" => some SheetQ.none | "p" => some (SheetQ.plain name) | "q" => some (SheetQ.quoted name)
+      | _ => none)
+    let first ← cellOf c1
+    let last ← (match rest with
+      | [] => some none
+      | [c2] => (cellOf c2).map some
+      | _ => none)
+    pure (.ref { sheet := sheet, first := first, last := last })
+  | _ => none
+
+mutual
+partial def exprOf : List String → Option (Expr × List String)
+  | [] => none
+  | w :: ws =>
+    if w = "u" then (exprOf ws).map fun (e, r) => (.neg e, r)
+    else if w = "p" then (exprOf ws).map fun (e, r) => (.paren e, r)
+    else match w.splitOn ":" with
+      | ["b", o] => do
+        let o ← binOpOf o
+        let (l, r1) ← exprOf ws
+        let (r, r2) ← exprOf r1
+        pure (.bin o l r, r2)
+      | ["c", a, f, n] => do
+        let f ← parseText? f
+        let n ← n.toNat?
+        let (args, r) ← exprsOf n ws
+        pure (.call (a = "1") f args, r)
+      | _ => (atomOf w).map fun e => (e, ws)
+partial def exprsOf : Nat → List String → Option (List Expr × List String)
+  | 0, ws => some ([], ws)
+  | n + 1, ws => do
+    let (a, r1) ← exprOf ws
+    let (as, r2) ← exprsOf n r1
+    pure (a :: as, r2)
+end
+
+/-- the blank oracle of a seed -/
+def oracle (seed : Nat) : Blanks := fun p k =>
+  if seed = 0 then []
+  else if seed = 1 then [false]
+  else if seed = 2 then [true]
+  else
+    let h0 := p.foldl (fun a i => (a * 31 + i + 7) % 1000003) (seed % 1000003)
+    let h := (h0 * 131 + k * 17 + 3) % 1000003
+    match (h / 7) % 8 with
+    | 0 | 1 | 2 | 3 => []
+    | 4 => [false]
+    | 5 => [false, false]
+    | 6 => [true]
+    | _ => [false, true, false]
+
+def implTree (text : List Char) : String :=
+  match parse [] text with
+  | .ok a => treeW (XlVerif.Model.C02.shape a)
+  | .error e => perrW e
 
 def handle (fields : List String) : String :=
   match fields with
@@ -60,6 +177,17 @@ def handle (fields : List String) : String :=
        (match parse names s with
         | .ok a => kv [("impl", astW a)]
         | .error e => kv [("impl", perrW e)])
+     | _, _ => "error=bad-args")
+  | ["shape", t] =>
+    (match parseText? t with
+     | some s => kv [("impl", implTree s)]
+     | none => "error=bad-args")
+  | ["expr", seed, w] =>
+    (match seed.toNat?, exprOf (w.splitOn " ") with
+     | some sd, some (e, []) =>
+       let text := render (oracle sd) e
+       kv [("text", textWire text), ("tree", treeW (treeOf e)), ("impl", implTree text),
+           ("wf", if wfB e then "1" else "0")]
      | _, _ => "error=bad-args")
   | _ => "error=bad-request"
 end XlVerif.Drv.C02
